@@ -215,6 +215,7 @@ func analyseIdxMethod(c *core.Ctx, p *core.Prog, cl *idxClass, fn *ssa.Function,
 		}
 		return st
 	}
+	infeasible := core.EnumInfeasible(fn)
 	in := map[*ssa.BasicBlock]idxFacts{fn.Blocks[0]: {0, 2}}
 	have := map[*ssa.BasicBlock]bool{fn.Blocks[0]: true}
 	type finding struct {
@@ -290,6 +291,9 @@ func analyseIdxMethod(c *core.Ctx, p *core.Prog, cl *idxClass, fn *ssa.Function,
 			}
 			iff := core.IfOf(b)
 			for si, s := range b.Succs {
+				if infeasible[core.Edge{From: b, To: s}] {
+					continue
+				}
 				ns := st
 				if iff != nil && len(b.Succs) == 2 {
 					ns = refine(st, iff.Cond, si == 0)
